@@ -770,6 +770,9 @@ func randSig(r *rand.Rand) SigSpec {
 
 func runC11(w *core.W) {
 	runC11PathArgs(w)
+	runC11ErrSigs(w)
+	// (one sweep per shard: a different stream each)
+	c11FloatSweep(w, &FloatSweepCase{Seed: w.Seed*1009 + int64(w.Shard), N: w.Pick(60000, 600000)})
 	// the spread marker without any argument, `f(...)`: nothing to spread - never a call
 	zi0 := 0
 	for _, ctx := range []bool{false, true} {
